@@ -441,6 +441,21 @@ def extra_obligations(w, tier, seed):
     ok4 = all(clears.get(a) and max(clears[a]) < first_await for a in ('conn_stack', 'conns'))
     out.append(dict(ob('scan/prune_all/unregister-before-await', 'Pool.prune_all_connections empties conn_stack and conns of every block before its first await', ok4,
                        'clear() calls at %s, first await at line %s' % (clears, first_await)), tag='property'))
+    # 4b. the capacity slot of a connection leaves the books only through _disconnect (which returns the slot when the close is done): every connection that
+    #     prune_all_connections drops from a registry is handed to self._disconnect -- the loop that schedules the closes ranges over the whole registry `block.conns`,
+    #     before that registry is emptied -- and the function itself never assigns _cur_capacity (a "resync" there forgets connections whose connect completes meanwhile)
+    disc_loops = [n for n in ast.walk(fn) if isinstance(n, ast.For) and any(isinstance(c, ast.Call) and ast.unparse(c.func) == 'self._disconnect' for c in ast.walk(n))]
+    inner = [l for l in disc_loops if not any(l2 is not l and any(x is l2 for x in ast.walk(l)) for l2 in disc_loops)]      # innermost
+    over = [ast.unparse(l.iter) for l in inner]
+    clear_conns = [n.lineno for n in ast.walk(fn) if isinstance(n, ast.Call) and ast.unparse(n.func) == 'block.conns.clear']
+    ok4b = len(inner) == 1 and over == ['block.conns'] and bool(clear_conns) and min(clear_conns) > inner[0].end_lineno
+    bad4b = bool(inner) and over != ['block.conns']
+    out.append(dict(ob('scan/prune_all/every-dropped-connection-closed', 'Pool.prune_all_connections schedules self._disconnect for every member of block.conns before emptying it', ok4b,
+                       'close loop over %s (line %s), conns.clear() at %s' % (over, [l.lineno for l in inner], clear_conns)), tag='property', status='discharged' if ok4b else ('failed' if bad4b else 'unknown')))
+    cap_writes = [n.lineno for n in ast.walk(fn) if isinstance(n, (ast.Assign, ast.AugAssign, ast.AnnAssign))
+                  and any(ast.unparse(t).endswith('._cur_capacity') for t in (n.targets if isinstance(n, ast.Assign) else [n.target]))]
+    out.append(dict(ob('scan/prune_all/no-capacity-write', 'Pool.prune_all_connections does not assign _cur_capacity (slots are returned by _disconnect alone)', not cap_writes,
+                       'writes at lines %s' % cap_writes), tag='property'))
     return out
 
 def _run_scenarios(tier, seed, repo_root, outdir, key):
